@@ -560,6 +560,22 @@ SELECTED += [("_Validator.__get__", "packaging.metadata", "_Validator.__get__")]
 X6_FUNCTIONS |= {("packaging.metadata", "_Validator.__get__")}
 X6_MD_IMPORT = "PkgModel.PyMd"
 # --- x6 end -----------------------------------------------------------------------------------------------------------
+# --- x7: seventh round (small getters / reprs of version.py and specifiers.py; metadata entry points; tokenizer) -------------
+X7_IMPORT = "PkgModel.PyX7"
+SELECTED += [
+    ("Version.major", "packaging.version", "Version.major"),
+    ("Version.minor", "packaging.version", "Version.minor"),
+    ("Version.micro", "packaging.version", "Version.micro"),
+    ("Version.is_devrelease", "packaging.version", "Version.is_devrelease"),
+    ("parse", "packaging.version", "parse"),
+    ("_parse_local_version", "packaging.version", "_parse_local_version"),
+    ("Version.__repr__", "packaging.version", "Version.__repr__"),
+    ("Specifier.__repr__", "packaging.specifiers", "Specifier.__repr__"),
+    ("SpecifierSet.__repr__", "packaging.specifiers", "SpecifierSet.__repr__"),
+    ("Specifier.__contains__", "packaging.specifiers", "Specifier.__contains__"),
+    ("Specifier._get_operator", "packaging.specifiers", "Specifier._get_operator"),
+]
+# --- x7 end -----------------------------------------------------------------------------------------------------------
 
 
 # ---------------------------------------------------------------------------------------------- one function
@@ -1472,6 +1488,9 @@ class Fn:
         r5 = self.x5_expr(e)                                  # x5: `|` and `==` on sets
         if r5 is not None:
             return r5
+        r7 = self.x7_expr(e)                                  # x7
+        if r7 is not None:
+            return r7
         if isinstance(e, ast.Constant):
             if isinstance(e.value, (bool, int, str)) or e.value is None:
                 return True, lconst(e.value)
@@ -1531,6 +1550,7 @@ class Fn:
                         else:
                             parts.append(f"(← PyRt.format {self.val(v.value)})")
                     elif v.conversion == ord("r"):
+                        self.ctx.imports.add(X7_IMPORT)           # x7: `PyRt.repr` lives in PyX7.lean
                         parts.append(f"(← PyRt.repr {self.val(v.value)})")
                     else:
                         raise Unsupported("f-string conversion")
@@ -1944,6 +1964,9 @@ class Fn:
                     continue
                 raise Unsupported("**kwargs in a call")
             kws[k.arg] = k.value
+        r7 = self.x7_call(e, kws)                             # x7
+        if r7 is not None:
+            return r7
         r6 = self.x6_call(e, kws)                             # x6
         if r6 is not None:
             return r6
@@ -3853,6 +3876,63 @@ class Fn:
         return None
     # ================================================================================================ x6 end
 
+    # ================================================================================================ x7
+    def x7_class_const_dict(self, e):
+        """`<obj>.<attr>` where obj has a tracked static class whose class attribute `attr` is a dict of constants that no
+        tracked subclass overrides: the rows as a Lean association list, else None"""
+        if not isinstance(e, ast.Attribute):
+            return None
+        c = self.static_class(e.value)
+        if c is None:
+            return None
+        d = self.ctx.lookup(c, e.attr)
+        if not isinstance(d, dict) or any(self.ctx.lookup(k, e.attr) is not d for k in self.ctx.subclasses(c)):
+            return None
+        try:
+            return "[" + ", ".join(f"({lconst(k)}, {lconst(v)})" for k, v in d.items()) + "]"
+        except Unsupported:
+            return None
+
+    def x7_expr(self, e):
+        # `self._operators[k]`: a class-level dict of constants, current contents inlined (KeyError when absent)
+        if isinstance(e, ast.Subscript) and isinstance(e.ctx, ast.Load) and not isinstance(e.slice, ast.Slice):
+            rows = self.x7_class_const_dict(e.value)
+            if rows is not None:
+                self.ctx.imports.add(X7_IMPORT)
+                return False, f"PyX7.const_dict_getitem {rows} {self.val(e.slice)}"
+        return None
+
+    def x7_call(self, e, kws):
+        f = e.func
+        # `getattr(obj, f"<prefix>{…}")` on an instance of a tracked class: a bound method of the class, by name.  Every
+        # attribute of the class (and of its tracked subclasses) with that prefix must be a plain function.
+        if isinstance(f, ast.Name) and f.id == "getattr" and f.id not in self.locals and len(e.args) == 2 and not kws \
+                and isinstance(e.args[1], ast.JoinedStr) and e.args[1].values and isinstance(e.args[1].values[0], ast.Constant) \
+                and isinstance(e.args[1].values[0].value, str) and e.args[1].values[0].value:
+            c = self.static_class(e.args[0])
+            if c is None:
+                raise Unsupported("getattr on a value of unknown class")
+            if self.ctx.subclasses(c):
+                raise Unsupported("reflective getattr on a class with tracked subclasses")
+            prefix = e.args[1].values[0].value
+            names = [n for k in c.__mro__ for n in vars(k) if n.startswith(prefix)]
+            names = sorted(set(names))
+            if not names or any(not inspect.isfunction(self.ctx.lookup(c, n)) for n in names):
+                raise Unsupported(f"attributes {prefix}* of {c.__name__} are not all plain functions")
+            self.ctx.imports.add(X7_IMPORT)
+            lst = "[" + ", ".join('"' + n + '"' for n in names) + "]"
+            return False, f"PyX7.bound_method {lst} {self.val(e.args[0])} {self.val(e.args[1])}"
+        # `<compiled pattern global>.split(s)` for a pattern that is one character class
+        if isinstance(f, ast.Attribute) and f.attr == "split" and isinstance(f.value, ast.Name) and f.value.id not in self.locals \
+                and type(self.globals.get(f.value.id)).__name__ == "Pattern" and len(e.args) == 1 and not kws:
+            rs = _x7_class_pattern(self.globals[f.value.id])
+            if rs is None:
+                raise Unsupported(f"{f.value.id}.split: the pattern is not a single character class")
+            self.ctx.imports.add(X7_IMPORT)
+            return False, "PyX7.re_split_class [" + ", ".join(f"({lo}, {hi})" for lo, hi in rs) + f"] {self.val(e.args[0])}"
+        return None
+    # ================================================================================================ x7 end
+
 
 # ---------------------------------------------------------------------------------------------- x6: the rewriting pass
 class _X6Rewrite(ast.NodeTransformer):
@@ -4374,6 +4454,22 @@ def _seq_pattern(pat, flags=0):
         else:
             out.append(f"PyRx.SeqItem.run {'true' if it[1] else 'false'} [" + ", ".join(f"({lo}, {hi})" for lo, hi in it[2]) + "]")
     return "[" + ", ".join(out) + "]", dict(re.compile(pat, flags).groupindex)
+
+
+def _x7_class_pattern(pat):
+    """x7: the code-point ranges of a compiled pattern that is exactly one character class / literal (swept from the
+    interpreter's regex parser under the pattern's flags), else None"""
+    from re import _parser as P
+    import translate as T
+    try:
+        tree = P.parse(pat.pattern, pat.flags)
+    except Exception:
+        return None
+    items = list(tree)
+    if len(items) != 1 or items[0][0] not in (P.IN, P.LITERAL):
+        return None
+    _, rs = T.sweep(tree.state, pat.flags, *items[0])
+    return [tuple(r) for r in rs]
 
 
 def _registered_regex(pat):
